@@ -156,8 +156,15 @@ class SocketTransportSink(ClientMessageSink):
         gevent.spawn(self._ProcessReply, buf, sink_stack)
       except gevent.Timeout: # pylint: disable=E0712
         err = TimeoutError()
+        # Discard the connection (a late reply may still arrive on it) and
+        # reconnect, but never bring up a transport that was not connected.
+        reconnect = self._socket.isOpen()
         self._socket.close()
-        self._socket.open()
+        if reconnect:
+          try:
+            self._socket.open()
+          except Exception as ex:
+            self._Fault(ex)
         self._processing = None
         sink_stack.AsyncProcessResponseMessage(MethodReturnMessage(error=err))
       except Exception as ex:
